@@ -22,6 +22,8 @@ type Result struct {
 	Pos    string
 	OK     bool
 	Detail string
+	Kind    string // "" = dataflow
+	Backend string // "" = ssa-dataflow
 }
 
 // Reachable computes the functions of /repo reachable from the roots (static calls,
